@@ -272,3 +272,18 @@ def prune_schema_cache(keep_days=0, max_entries=60):
     ents = sorted((os.path.getmtime(os.path.join(d, e)), e) for e in os.listdir(d))
     for _, e in ents[:-max_entries]:
         shutil.rmtree(os.path.join(d, e), ignore_errors=True)
+
+
+def shim(name='heapshift'):
+    """LD_PRELOAD helper libraries under /verif/drivers/<name>.c"""
+    src = os.path.join(ROOT, 'drivers', name + '.c')
+    key = sha(open(src, 'rb').read())[:12]
+    d = os.path.join(BUILD, 'drivers')
+    os.makedirs(d, exist_ok=True)
+    so = os.path.join(d, '%s-%s.so' % (name, key))
+    if not os.path.exists(so):
+        with Lock('shim-' + name):
+            if not os.path.exists(so):
+                _sh(['gcc', '-shared', '-fPIC', '-O1', '-o', so + '.tmp', src], what='shim ' + name)
+                os.rename(so + '.tmp', so)
+    return so
